@@ -29,8 +29,8 @@ import (
 //	U  dispatch     — the package function Unmarshal: the case strings of its switch whose body
 //	                  decodes into a variable of that struct type.
 //
-// One obligation per kind name in E ∪ D ∪ U: present in all three tables, with the same Go type
-// in E and D. Informational: the coordinate types the importer's type switch
+// One obligation per kind name in E (every kind the package writes): present in D and U too, with
+// the same Go type in E and D. Kinds that are only read are informational. Informational: the coordinate types the importer's type switch
 // (ingest.(*AddFeatures).fillFromFeature) does not handle (those features are dropped).
 func init() {
 	register(&Rule{
@@ -253,7 +253,10 @@ func runGeoJSONTypes(c *Ctx) []Obligation {
 			ob.Pos = c.Position(U[k][0].pos)
 		}
 		if len(E[k]) == 0 {
-			problems = append(problems, "no Geometry literal builds it (decoded but never written by the package)")
+			// decoded but never written by the package: reading more than is written is harmless for the round trip
+			out = append(out, Obligation{Key: "geojson#" + k, Pos: ob.Pos, Status: Info,
+				Detail: fmt.Sprintf("geometry type %q is decoded or dispatched but no Geometry literal of the package builds it", k)})
+			continue
 		}
 		if len(D[k]) == 0 {
 			problems = append(problems, "Geometry.UnmarshalJSON has no case for it: a geometry written with this type cannot be read back")
